@@ -1496,6 +1496,72 @@ end architecture;
 }
 
 #[test]
+fn access_type_is_implicitly_dereferenced_only_once() {
+    let mut builder = LibraryBuilder::new();
+    let code = builder.code(
+        "libname",
+        "
+entity ent is
+end;
+
+architecture a of ent is
+
+  type rec_t is record
+    elem : natural;
+  end record;
+  type rec_access_t is access rec_t;
+  type rec_access_access_t is access rec_access_t;
+
+  -- An access type that designates itself
+  type self_t;
+  type self_t is access self_t;
+
+begin
+
+  main : process
+      variable ptr : rec_access_access_t;
+      variable self : self_t;
+      variable v : natural;
+  begin
+     -- Ok
+     v := ptr.all.elem;
+     self := self.all.all;
+     -- Not ok
+     v := ptr.elem;
+     v := self.elem;
+     v := self(0);
+     v := self'length;
+  end process;
+
+end architecture;
+",
+    );
+    let diagnostics = builder.analyze();
+    check_diagnostics(
+        diagnostics,
+        vec![
+            Diagnostic::mismatched_kinds(
+                code.s1("ptr.elem").s1("ptr"),
+                "Access type 'rec_access_access_t' may not be the prefix of a selected name",
+            ),
+            Diagnostic::mismatched_kinds(
+                code.s1("self.elem").s1("self"),
+                "Access type 'self_t' may not be the prefix of a selected name",
+            ),
+            Diagnostic::mismatched_kinds(
+                code.s1("self(0)").s1("self"),
+                "variable 'self' of access type 'self_t' cannot be indexed",
+            ),
+            Diagnostic::new(
+                code.s1("self'length"),
+                "variable 'self' of access type 'self_t' cannot be the the prefix of 'length attribute",
+                ErrorCode::CannotBePrefixed,
+            ),
+        ],
+    );
+}
+
+#[test]
 fn hover_for_physical_type_units() {
     let mut builder = LibraryBuilder::new();
     let code = builder.in_declarative_region(
